@@ -83,8 +83,41 @@ def detect(m, props):
     return res
 
 
+def pack():
+    """write /verif/seeded/<id>/{patch.diff, demo.rs, meta.json} from the confirmed changes and the detection results"""
+    conf = {r["id"]: r for r in json.load(open(f"{OUT}/confirm.json"))}
+    det = {}
+    for f in sorted(glob.glob(f"{OUT}/detect*.json")):
+        for r in json.load(open(f)):
+            det.setdefault(r["id"], {}).update(r["checks"])
+    for prop, k, diff in muts():
+        name = f"{prop}_{k}"
+        c = conf.get(name, {})
+        if not (c.get("applies") and c.get("suite_green_with_change") and c.get("demo_red_with_change") and c.get("demo_green_without_change")):
+            continue
+        d = f"/verif/seeded/{name}"
+        os.makedirs(d, exist_ok=True)
+        shutil.copy(diff, f"{d}/patch.diff")
+        shutil.copy(diff[:-5] + "_demo.rs", f"{d}/demo.rs")
+        md = open(diff[:-5] + ".md").read() if os.path.exists(diff[:-5] + ".md") else ""
+        checks = det.get(name, {})
+        meta = {
+            "id": name, "breaks_property": prop, "author": "independent sub-agent (given only the property text and a scratch worktree)",
+            "what_and_what_it_needs_to_manifest": md.strip()[:2500],
+            "confirmed_by_me": {"base": "/repo HEAD at the time of confirmation", "applies": True, "existing_suite_green_with_change": True,
+                                "demo_fails_with_change": True, "demo_passes_without_change": True,
+                                "how": "bin/mutants.py confirm: scratch copy of /repo, git apply patch.diff, cargo test --offline (94+2 green), demo copied to tests/demo.rs: red with the change, green after git apply -R"},
+            "detection": {p: {"exit": v["exit"], "violation_lines": v["violations"], "failed_obligations": [x for dd in v["details"] for x in (dd.get("obligations") or [])],
+                              "with_failing_input": any(dd["has_cex"] and not dd["no_input"] for dd in v["details"]), "undecided": v["undecided"]} for p, v in checks.items()},
+        }
+        json.dump(meta, open(f"{d}/meta.json", "w"), indent=1)
+        print(name, {p: v["exit"] for p, v in checks.items()})
+
+
 def main():
     mode = sys.argv[1]
+    if mode == "pack":
+        return pack()
     props = sys.argv[3:]
     ms = list(muts())
     if mode == "confirm":
@@ -93,7 +126,8 @@ def main():
     else:
         with ThreadPoolExecutor(4) as ex:
             rs = list(ex.map(lambda m: detect(m, props), ms))
-    json.dump(rs, open(f"{OUT}/{mode}.json", "w"), indent=1)
+    tag = ("_" + "_".join(props)) if (mode == "detect" and props) else ""
+    json.dump(rs, open(f"{OUT}/{mode}{tag}.json", "w"), indent=1)
     for r in rs:
         print(json.dumps(r))
 
